@@ -657,11 +657,18 @@ func parent(prop, tier string) int {
 		}
 	}
 	unknownV := 0
+	// one line per finding listed for this property in known_findings.json (in
+	// file order), whether or not this run reached it
 	printedKnown := map[string]bool{}
-	for k, n := range tot.Known {
-		if !printedKnown[k] {
-			printedKnown[k] = true
-			fmt.Printf("KNOWN-FINDING: property=%s %s (hit %d times)\n", prop, k, n)
+	for _, e := range known {
+		if e.Status != "known" || e.Property != prop || printedKnown[e.What] {
+			continue
+		}
+		printedKnown[e.What] = true
+		if n := tot.Known[e.What]; n > 0 {
+			fmt.Printf("KNOWN-FINDING: property=%s %s (hit %d times in this run)\n", prop, e.What, n)
+		} else {
+			fmt.Printf("KNOWN-FINDING: property=%s %s (not reached in this run)\n", prop, e.What)
 		}
 	}
 	// minimise (in parallel) the first replay of each distinct violation class
